@@ -694,3 +694,65 @@ func termOne(d *fw.Driver, res *fw.Result, r interface{ Intn(int) int }, seed in
 	}
 	return nil
 }
+
+// RichElements: "the values a handler sends arrive on the caller's channel in the same order, each exactly
+// once" for an element type with storage of its own.  The consumer keeps every element it received and
+// compares all of them with what was sent only after the stream has ended — an element that was correct
+// when delivered and changed afterwards (storage shared between elements) is seen this way.
+func RichElements(res *fw.Result, seed int64, n int) error {
+	e, err := scen.NewEnv(seed, 1)
+	if err != nil {
+		return err
+	}
+	defer e.Close()
+	ctx, cancel := context.WithCancel(context.Background())
+	defer cancel()
+	cl, closer, err := e.Client(ctx, jsonrpc.WithNoReconnect())
+	if err != nil {
+		return err
+	}
+	defer scen.WithTimeout(3*time.Second, closer)
+	sig := "stream of non-scalar elements"
+	tok := 990000 + int(seed%1000)
+	ch, err := cl.SubRich(ctx, tok, n)
+	if err != nil || ch == nil {
+		res.Add(fw.Finding{Kind: "monitor", Signature: sig + " call failed", Detail: fmt.Sprintf("SubRich failed on a healthy connection: %v", err)})
+		return nil
+	}
+	var got []scen.Rich
+	done := make(chan struct{})
+	go func() {
+		defer close(done)
+		for v := range ch {
+			got = append(got, v)
+			if len(got)%16 == 0 {
+				time.Sleep(50 * time.Microsecond) // let a backlog build up now and then
+			}
+		}
+	}()
+	select {
+	case <-done:
+	case <-time.After(10 * time.Second):
+		res.Add(fw.Finding{Kind: "monitor", Signature: sig + " never closes", Detail: "the stream did not end within 10s"})
+		return nil
+	}
+	bad, first := 0, ""
+	for i := 0; i < n && i < len(got); i++ {
+		want := scen.RichOf(tok, i)
+		if fw.JSON(got[i]) != fw.JSON(want) {
+			bad++
+			if first == "" {
+				first = fmt.Sprintf("element %d: sent %s, the caller holds %s", i, fw.JSON(want), fw.JSON(got[i]))
+			}
+		}
+	}
+	switch {
+	case len(got) != n:
+		res.Add(fw.Finding{Kind: "monitor", Signature: sig + " count", Detail: fmt.Sprintf("the handler sent %d elements and closed, the caller received %d", n, len(got)), Case: map[string]interface{}{"scenario": "rich-elements", "n": n}})
+	case bad > 0:
+		res.Add(fw.Finding{Kind: "monitor", Signature: sig + " corrupted", Detail: fmt.Sprintf("%d of %d elements differ from what the handler sent (after the stream ended); first: %s", bad, n, first), Case: map[string]interface{}{"scenario": "rich-elements", "n": n}})
+	}
+	res.Count("rich-elements")
+	res.Eval(true, []interface{}{"rich-elements", n})
+	return nil
+}
